@@ -91,7 +91,10 @@ class SymMap:
             if eng.truth(key == k): return v
         if not self.empty and eng.branch(self.has0(key)):
             kid = key.get_id()
-            if kid not in self.memo: self.memo[kid] = (key, self.base_value(eng, key) if self.base_value else Opaque(self.name + "-value"))
+            if kid not in self.memo:
+                for k0, v0 in list(self.memo.values()):
+                    if eng.truth(key == k0): return v0          # the same prior entry, reached through an equal key
+                self.memo[kid] = (key, self.base_value(eng, key) if self.base_value else Opaque(self.name + "-value"))
             return self.memo[kid][1]
         if default is KeyError: raise PyRaise(Exc("KeyError"))
         return default
